@@ -37,6 +37,11 @@ impl TicketCounter {
     #[verifier::external_body] pub fn fetch_sub(&mut self, d: u32, o: Ordering) -> u32 requires false { unimplemented!() }
     #[verifier::external_body] pub fn store(&mut self, v: u32, o: Ordering) requires false { }
     #[verifier::external_body] pub fn swap(&mut self, v: u32, o: Ordering) -> u32 requires false { unimplemented!() }
+    #[verifier::external_body] pub fn fetch_max(&mut self, v: u32, o: Ordering) -> u32 requires false { unimplemented!() }
+    #[verifier::external_body] pub fn fetch_min(&mut self, v: u32, o: Ordering) -> u32 requires false { unimplemented!() }
+    #[verifier::external_body] pub fn fetch_or(&mut self, v: u32, o: Ordering) -> u32 requires false { unimplemented!() }
+    #[verifier::external_body] pub fn fetch_and(&mut self, v: u32, o: Ordering) -> u32 requires false { unimplemented!() }
+    #[verifier::external_body] pub fn fetch_xor(&mut self, v: u32, o: Ordering) -> u32 requires false { unimplemented!() }
 }
 pub struct CommitCounter { pub v: u32 }      // tail, head: advance in ticket order only (CAS t -> t+1)
 impl CommitCounter {
@@ -54,6 +59,11 @@ impl CommitCounter {
     #[verifier::external_body] pub fn fetch_sub(&mut self, d: u32, o: Ordering) -> u32 requires false { unimplemented!() }
     #[verifier::external_body] pub fn store(&mut self, v: u32, o: Ordering) requires false { }
     #[verifier::external_body] pub fn swap(&mut self, v: u32, o: Ordering) -> u32 requires false { unimplemented!() }
+    #[verifier::external_body] pub fn fetch_max(&mut self, v: u32, o: Ordering) -> u32 requires false { unimplemented!() }
+    #[verifier::external_body] pub fn fetch_min(&mut self, v: u32, o: Ordering) -> u32 requires false { unimplemented!() }
+    #[verifier::external_body] pub fn fetch_or(&mut self, v: u32, o: Ordering) -> u32 requires false { unimplemented!() }
+    #[verifier::external_body] pub fn fetch_and(&mut self, v: u32, o: Ordering) -> u32 requires false { unimplemented!() }
+    #[verifier::external_body] pub fn fetch_xor(&mut self, v: u32, o: Ordering) -> u32 requires false { unimplemented!() }
 }
 pub struct AtomicMove<const BUFFER_SIZE: usize> { pub head: CommitCounter, pub tail: CommitCounter, pub dequeuer_head: TicketCounter, pub enqueuer_tail: TicketCounter,
     /// ghost (R7): ids of reserved slots whose payload has been written (ptr::write / setter) and not yet published
@@ -168,7 +178,7 @@ FNS = [
        ensures="r as int == self.len()"),
     fn("release_leaked_internal", props=["C01", "C02", "C15", "C13", "C08"], attrs="#[verifier::exec_allows_no_decreases_clause]",
        sig="pub fn release_leaked_internal(&mut self, slot_id: u32)", sig_anchor=r"pub fn release_leaked_internal\(&self, slot_id: u32\)",
-       rules=[Rule("R8-break", r"Ok\(_\) => break,", "Ok(_) => return,", count=1, note="`break` of the tail loop -> `return`")],
+       rules=[Rule("R8-break", r"Ok\(_\) => break,", "Ok(_) => return,", min=0, note="`break` of the tail loop -> `return`")], loops_optional=True,
        requires="old(self).head@ == slot_id",
        ensures="final(self).head@ == slot_id.wrapping_add(1), final(self).tail == old(self).tail && final(self).dequeuer_head == old(self).dequeuer_head && final(self).enqueuer_tail == old(self).enqueuer_tail && final(self).written == old(self).written && final(self).moved_out == old(self).moved_out",
        loops={0: "invariant self.head@ == slot_id, self.tail == old(self).tail && self.dequeuer_head == old(self).dequeuer_head && self.enqueuer_tail == old(self).enqueuer_tail && self.written == old(self).written && self.moved_out == old(self).moved_out,"}),
